@@ -110,6 +110,9 @@ func checkReviver(c reviverCase) harness.Outcome {
 		return o
 	}
 	rv := c.Reviver
+	if rv.NonCallable != "" {
+		return checkNonCallableReviver(c, e)
+	}
 	want, tree, flags := rv.Revive(e.want)
 	orderDep := flags.OrderDependent
 	o.Nontrivial = e.stats.Containers > 0 && (rv.Drop != nil || rv.Wrap != nil || rv.Neg || rv.ArrLen || rv.DelKey != nil)
@@ -177,6 +180,46 @@ func checkReviver(c reviverCase) harness.Outcome {
 	return o
 }
 
+var nonCallables = []string{"{}", "5", "null", "\"f\"", "[]", "true", "({call:function(){}})", "new String(\"function(){}\")"}
+
+func checkNonCallableReviver(c reviverCase, e expectation) harness.Outcome {
+	o := harness.Outcome{Classes: []string{"reviver-not-callable"}, Nontrivial: e.stats.Containers > 0}
+	ok := false
+	for _, n := range nonCallables {
+		if n == c.Reviver.NonCallable {
+			ok = true
+		}
+	}
+	if !ok {
+		o.Discard = "unknown non-callable expression"
+		return o
+	}
+	text, good := goText(c.Text)
+	if !good {
+		o.Discard = "raw lone surrogate in the text"
+		return o
+	}
+	v := getVM()
+	if err := v.Set("__t", text); err != nil {
+		panic(err)
+	}
+	r := harness.Run(v, "JSON.parse(__t,"+c.Reviver.NonCallable+")")
+	if bad := describeErr(r); bad != "" {
+		o.Fail = fmt.Sprintf("JSON.parse(%s, %s) fails: %s; a reviver that is not callable is ignored (15.12.2 step 4)", m11.ShowText(c.Text), c.Reviver.NonCallable, bad)
+		return o
+	}
+	got, err := readJV(r.Value, 0)
+	if err == nil {
+		if d := m11.DiffJV(e.want, got); d != "" {
+			err = fmt.Errorf("%s", d)
+		}
+	}
+	if err != nil {
+		o.Fail = fmt.Sprintf("JSON.parse(%s, %s) differs from the plain parse: %v; a reviver that is not callable is ignored (15.12.2 step 4)", m11.ShowText(c.Text), c.Reviver.NonCallable, err)
+	}
+	return o
+}
+
 func collectKeys(n *m11.Node, out *[][]uint16) {
 	switch n.K {
 	case m11.Arr:
@@ -198,14 +241,18 @@ func genKeyFrom(t *rapid.T, pool [][]uint16, label string) *[]uint16 {
 
 var parseReviver = harness.Register(&harness.Facet[reviverCase]{
 	Name: "parse-reviver",
-	Rule: "rapid: valid rendering of a tree (depth ≤ 4, no lone surrogates) parsed with a generated reviver from the family {log only, drop by key, wrap by key, negate numbers, replace arrays by their length, delete another member of the holder} (keys drawn from the tree's own keys, array indices and \"\"); every call is logged as (key, class of this, value summary incl. key counts of containers); oracle = model of 15.12.2 Walk: result compared deeply (holes, deletions), log matched as a post-order traversal (array indices ascending, object members in any order); non-trivial = tree has a container and the reviver changes something; distinct by (text, reviver)",
-	Quick: 10000, Thorough: 100000,
+	Rule: "rapid: valid rendering of a tree (depth ≤ 4, no lone surrogates) parsed with a generated reviver from the family {not callable (ignored), log only, drop by key, wrap by key, negate numbers, replace arrays by their length, delete another member of the holder} (keys drawn from the tree's own keys, array indices and \"\"); every call is logged as (key, class of this, value summary incl. key counts of containers); oracle = model of 15.12.2 Walk: result compared deeply (holes, deletions), log matched as a post-order traversal (array indices ascending, object members in any order); non-trivial = tree has a container and the reviver changes something; distinct by (text, reviver)",
+	Quick: 10000, Thorough: 60000,
 	Gen: func(t *rapid.T) reviverCase {
 		tree := m11.GenTree(t, m11.TreeOpts{MaxDepth: 4, MaxNodes: 24})
 		text := m11.Render(t, tree, m11.Style(rapid.IntRange(0, 1).Draw(t, "style")))
 		pool := [][]uint16{m11.ASCII(""), m11.ASCII("0"), m11.ASCII("1"), m11.ASCII("2")}
 		collectKeys(tree, &pool)
 		rv := &m11.Reviver{}
+		if rapid.IntRange(0, 19).Draw(t, "noncallable") == 0 {
+			rv.NonCallable = rapid.SampledFrom(nonCallables).Draw(t, "nc")
+			return reviverCase{Text: text, Reviver: rv}
+		}
 		if rapid.IntRange(0, 2).Draw(t, "drop") == 0 {
 			rv.Drop = genKeyFrom(t, pool, "dropkey")
 		}
@@ -500,7 +547,7 @@ func modelDesc(res *m11.StringifyResult) string {
 var stringifyFacet = harness.Register(&harness.Facet[stringifyCase]{
 	Name: "stringify",
 	Rule: "rapid: value graph built by generated script (primitives incl. NaN/±Infinity/−0/undefined, functions, Number/String/Boolean wrappers with overridden valueOf/toString, Dates, arrays with holes and extra named members, objects with own / non-enumerable / getter / inherited members, toJSON own / inherited / non-callable returning a constant, the key, this, or throwing; shared references; cycles direct, through arrays, through toJSON and through the replacer) × replacer (none, function {log, drop by key, substitute by key, double numbers}, property list with duplicates / numbers / wrappers / junk / holes, non-callable) × space (−1…12, 3.7, NaN, ±Infinity, strings of length 0…12 over white space / ASCII / non-ASCII, wrappers, ignored values); oracle = model of 15.12.3 (Str, Quote, JO, JA): TypeError/RangeError/undefined as the model says, output accepted by the model's own reader and denoting the model's serialisation, exact layout (indent = depth × gap, gap ≤ 10), exact Quote/ToString spellings, member order free, call log of toJSON/replacer matched; non-trivial = toJSON, replacer, wrapper, omitted member or null-in-array involved; distinct by case",
-	Quick: 20000, Thorough: 200000,
+	Quick: 20000, Thorough: 150000,
 	Gen: func(t *rapid.T) stringifyCase {
 		abrupt := rapid.SampledFrom([]string{"", "", "", "", "", "", "cycle", "cycle", "throw", "throw"}).Draw(t, "abrupt")
 		val, next, done := m11.GenSV(t, m11.SVOpts{MaxDepth: 3, Abrupt: abrupt}, 1, nil)
@@ -659,7 +706,7 @@ func denotes(text []uint16, want *m11.Node) string {
 var lawsFacet = harness.Register(&harness.Facet[lawCase]{
 	Name: "laws-and-go-marshal",
 	Rule: "rapid: JSON value tree (depth ≤ 4, finite numbers, no lone surrogates) and one rendering t of it. Law 1: v built from an ES5 literal (not through JSON.parse), JSON.parse(JSON.stringify(v)) read from Go is structurally equal to v (−0 → 0). Law 2: JSON.stringify(JSON.parse(t)) is accepted by the model's reader and denotes the value of t. Go side: Value.MarshalJSON and Object.MarshalJSON of JSON.parse(t) are accepted by the model's reader and denote the same tree; non-trivial = container plus a string needing escapes or a non-integer number; distinct by text",
-	Quick: 6000, Thorough: 100000,
+	Quick: 6000, Thorough: 60000,
 	Gen: func(t *rapid.T) lawCase {
 		tree := m11.GenTree(t, m11.TreeOpts{MaxDepth: 4, MaxNodes: 30})
 		return lawCase{Tree: tree.Encode(), Text: m11.Render(t, tree, m11.Style(rapid.IntRange(0, 2).Draw(t, "style")))}
